@@ -187,7 +187,8 @@ func EncodeCells(cells []Cell) string {
 			_, _ = bldr.WriteString(tparm(ulStyleSet, ulStyle))
 		}
 
-		if cursor.Hyperlink != next.Hyperlink {
+		if cursor.Hyperlink != next.Hyperlink ||
+			(next.Hyperlink != "" && cursor.HyperlinkParams != next.HyperlinkParams) {
 			link := next.Hyperlink
 			linkPs := next.HyperlinkParams
 			if link == "" {
